@@ -47,7 +47,11 @@ and neither is the zero felt (the root of the empty trie / the absent value). -/
 structure Ideal (A : HashAlg H) : Prop where
   bin_inj : ∀ a b c d, A.bin a b = A.bin c d → a = c ∧ b = d
   edge_inj : ∀ c p c' p', A.edge c p = A.edge c' p' → c = c' ∧ p = p'
-  bin_ne_edge : ∀ a b c p, A.bin a b ≠ A.edge c p
+  /-- a binary and an edge node hash never coincide — EXCEPT in the one case where they coincide
+  structurally in felt arithmetic: `bin c 0 = H(c, 0) = edge c []` (empty path: path felt 0, length
+  0). Honest tries have neither empty edge paths (`WF`) nor zero children (`NZ`), the verifiers do
+  accept such nodes in a node set, so the exception is part of the statement. -/
+  bin_ne_edge : ∀ a b c p, (p ≠ [] ∨ b ≠ A.zero) → A.bin a b ≠ A.edge c p
   bin_ne_zero : ∀ a b, A.bin a b ≠ A.zero
   edge_ne_zero : ∀ c p, A.edge c p ≠ A.zero
 
@@ -104,10 +108,26 @@ inductive Tag where
   | hash | value | nil
   deriving DecidableEq, Repr
 
+/-- The Go type of a child of a trie2 proof node, as `trie2.VerifyProof`'s switch sees it: the three
+collapsed shapes, or an EMBEDDED `*EdgeNode` / `*BinaryNode` with (`embCached`) or without
+(`embPlain`) a cached hash flag. `hasher.proofHash` hashes an embedded child through `hasher.hash`
+(the cached flag if set, else recursively), so for the parent's hash it counts as a hash node holding
+that felt (`h`). -/
+inductive Shape where
+  | hash | value | nil | embCached | embPlain
+  deriving DecidableEq, Repr
+
 structure Child (H : Type) where
-  tag : Tag
+  shape : Shape
   h : H
   deriving Repr
+
+/-- what the child is after `hasher.proofHash` collapsed its parent -/
+def Child.tag (c : Child H) : Tag :=
+  match c.shape with
+  | .hash | .embCached | .embPlain => .hash
+  | .value => .value
+  | .nil => .nil
 
 inductive PNode (H : Type) where
   | bin (l r : Child H) (cache : Option H)
@@ -233,12 +253,19 @@ structure Cfg where
   trustCache : Bool
   earlyValue : Bool
   zeroRoot : Bool
+  /-- trie2: the walk continues on the collapsed copy that was hashed (`get(collapsed, …)`); `false` =
+  on the node as given, so that an embedded child is stepped over: with a cached flag the walk jumps to
+  that hash, without one the SAME node is entered again with the key already shortened -/
+  walkCollapsed : Bool
   deriving Repr, DecidableEq
 
-/-- the code as it is at the pinned commit -/
-def Cfg.asIs : Cfg := ⟨true, true, false⟩
-/-- the repaired verifiers; also the independent verifier of the harness -/
-def Cfg.strict : Cfg := ⟨false, false, true⟩
+/-- the code at the commit the work started from (0308209): regression witnesses only -/
+def Cfg.asIs : Cfg := ⟨true, true, false, false⟩
+/-- /repo after aab3e5b + dbf9f09 (997852f and later): cached flags not trusted, early value rejected,
+zero root = empty trie, but the walk still uses the node as given -/
+def Cfg.at997852f : Cfg := ⟨false, false, true, false⟩
+/-- all repairs; also the independent verifier of the harness -/
+def Cfg.strict : Cfg := ⟨false, false, true, true⟩
 
 /-- `trie.VerifyProof` (core/trie/proof.go:144). `curPos` is a `uint8`. -/
 def verifyLAux [DecidableEq H] (A : HashAlg H) (proof : PSet H) (key : Path) :
@@ -286,8 +313,13 @@ def verify2Aux [DecidableEq H] (A : HashAlg H) (cfg : Cfg) (proof : PSet H) :
       match step2 node key with
       | (none, _) => .ok A.zero
       | (some c, key') =>
+        if !cfg.walkCollapsed && c.shape = .embPlain then verify2Aux A cfg proof fuel expected key'
+        else if !cfg.walkCollapsed && c.shape = .embCached then verify2Aux A cfg proof fuel c.h key'
+        else
         match c.tag with
-        | .nil => .ok A.zero
+        | .nil =>
+          -- walking the collapsed copy a nil child is `NilValueNode`: a value node holding zero
+          if cfg.walkCollapsed && !(cfg.earlyValue || key'.length = 0) then .earlyValue else .ok A.zero
         | .hash => if key'.length = 0 then .ok c.h else verify2Aux A cfg proof fuel c.h key'
         | .value => if cfg.earlyValue || key'.length = 0 then .ok c.h else .earlyValue
 
@@ -589,6 +621,10 @@ def lastVal (kvs : List (Path × H)) (k : Path) : Option H :=
   ((kvs.filter (fun kv => kv.1 = k)).getLast?).map (·.2)
 
 
+/-- the contract leaf `H(H(H(class_hash, storage_root), nonce), 0)` -/
+def contractLeaf (A : HashAlg H) (classHash storageRoot nonce : H) : H :=
+  A.bin (A.bin (A.bin classHash storageRoot) nonce) A.zero
+
 /-! ### The free term algebra (ideal hash) -/
 
 inductive HTerm where
@@ -598,6 +634,11 @@ inductive HTerm where
   deriving DecidableEq, Repr
 
 def freeAlg : HashAlg HTerm := ⟨.felt 0, .felt, .ped, .add⟩
+
+/-- the free algebra with the two identities of real felt arithmetic that matter structurally:
+`ofNat 0 = zero` and `x + 0 = x` (so that `bin c 0 = edge c []`, as with real Pedersen) -/
+def feltLikeAlg : HashAlg HTerm :=
+  ⟨.felt 0, .felt, .ped, fun a n => if n = 0 then a else .add a n⟩
 
 /-! ### The table-driven algebra of the driver: felts are numbers, `h2` is looked up in the list
 of real hash evaluations the harness sends along, addition is modulo the field prime. -/
